@@ -30,6 +30,8 @@ fn main() {
         "easing-tables" => println!("{}", laws::easing_tables(&args[2])),
         "drive-easing" => println!("{}", laws::drive_easing(&args[2])),
         "drive-lerp" => println!("{}", laws::drive_lerp(args[2].parse().unwrap(), args[3] == "full", &args[4])),
+        "drive-anim" => println!("{}", anim::drive_anim(args[2].parse().unwrap(), args[3].parse().unwrap(), args[4].parse().unwrap(), &args[5])),
+        "judge-anim" => println!("{}", anim::judge_anim(&args[2], &args[3])),
         "drive-ts" => {
             // drive-ts <seed> <configs> <out.ndjson>
             let r = ts::drive_ts(args[2].parse().unwrap(), args[3].parse().unwrap(), &args[4]);
